@@ -17,7 +17,7 @@ func checkC08(c *Check) {
 	c.Explain = "C08: round-trip equality over all requests is NOT decided (it is a statement about values through the libraries' encoders/decoders). Decided are three necessary conditions: (1) no lossy numeric decode of the payload on the signing path: bytes derived from SignRequest.Payload.Content never reach json.Unmarshal, and reach a json.Decoder only if UseNumber() was called on that decoder before Decode; COSE stores the payload bytes verbatim; (2) external signers receive exactly the to-be-signed bytes: the JWS remote signing method passes its signingString parameter (converted to bytes, nothing else) to Signer.Sign and returns the result encoded with base64.RawURLEncoding; every base64 use of the jws package is RawURLEncoding (writer/reader agreement); the COSE remote signer forwards its payload parameter unchanged and returns the signature unchanged; (3) writer/reader label agreement: the JWS writer fills the fields of the same header struct type the reader copies from (scheme-dependent time field under the scheme's own guard, expiry only when non-zero); the COSE writer's constant labels equal the labels the reader consumes and the time label comes from the same scheme->label map object; truncation to time.Second is stored into the request before validation and before the format-level Sign (C16.1); the value returned by Sign is the value stored in Raw (C20.2). Not decided: value equality after encode/decode."
 	fmts := discoverFormats(c)
 	for _, f := range fmts {
-		pg := c.skeleton(f.method("Sign"))
+		pg := c.signSkeleton(f)
 		if pg == nil {
 			continue
 		}
@@ -72,7 +72,7 @@ func checkC08(c *Check) {
 		if f.name != "COSE" {
 			continue
 		}
-		if pg := c.skeleton(f.method("Sign")); pg != nil {
+		if pg := c.signSkeleton(f); pg != nil {
 			var writers []*PState
 			for _, s := range pg.States {
 				for _, e := range s.Out {
